@@ -577,96 +577,134 @@ func c14Routing(w *core.W, j int) {
 			mux.HandleFunc(pat, func(dns.ResponseWriter, *dns.Msg) { hit = id })
 			_ = i
 		}
-		for k := 0; k < 40; k++ {
-			q := universe[r.IntN(len(universe))].Clone()
-			switch r.IntN(4) {
-			case 0:
-				q = append(model.Name{g.Label()}, q...)
-			case 1:
-				q, _ = flipCase(g, q)
-			case 2:
-				q = append(model.Name{g.Label(), g.Label()}, q...)
+		// three phases over the same mux: as registered; after HandleRemove of a random subset (the
+		// root included); after registering some of the removed ones again and removing others
+		allPats := pats
+		active := make([]bool, len(allPats))
+		for i := range active {
+			active[i] = true
+		}
+		for phase := 0; phase < 3; phase++ {
+			if phase > 0 {
+				for i, n := range allPats {
+					if r.IntN(2) == 0 {
+						continue
+					}
+					i := i
+					spelled := n.Pres()
+					if r.IntN(3) == 0 {
+						v, _ := flipCase(g, n)
+						spelled = v.Pres()
+					}
+					if active[i] {
+						mux.HandleRemove(spelled)
+						active[i] = false
+					} else {
+						mux.HandleFunc(spelled, func(dns.ResponseWriter, *dns.Msg) { hit = i })
+						active[i] = true
+					}
+				}
+				w.Count("routing_reconfigurations", 1)
 			}
-			if !q.Valid() {
-				continue
+			pats = nil
+			var patIDs []int
+			for i, n := range allPats {
+				if active[i] {
+					pats = append(pats, n)
+					patIDs = append(patIDs, i)
+				}
 			}
-			qtype := []uint16{dns.TypeA, dns.TypeDS, dns.TypeNS, dns.TypeDS, uint16(g.Uint(16))}[r.IntN(5)]
-			req := new(dns.Msg)
-			req.Id = uint16(r.IntN(65536))
-			req.Opcode = []int{0, 0, 0, 4, 2}[r.IntN(5)]
-			req.RecursionDesired = r.IntN(2) == 0
-			req.CheckingDisabled = r.IntN(2) == 0
-			req.AuthenticatedData = r.IntN(2) == 0
-			req.Question = []dns.Question{{Name: q.Pres(), Qtype: qtype, Qclass: 1}}
-			if r.IntN(6) == 0 {
-				req.Question = append(req.Question, dns.Question{Name: "second.example.", Qtype: 1, Qclass: 1})
-			}
-			hit = -1
-			rw := &muxRW{}
-			w.Eval(1)
-			wit := map[string]any{"patterns": presAll(pats), "qname": q.Pres(), "qtype": qtype}
-			if w.Guard("ServeMux.ServeDNS", wit, func() { mux.ServeDNS(rw, req) }) {
-				continue
-			}
-			w.NontrivialStr(q.Pres(), fmt.Sprint(qtype), strings.Join(presAll(pats), "|"))
-			allowed, refused := c14Route(pats, q, qtype)
-			w.Count("routing_cases", 1)
-			if qtype == dns.TypeDS {
-				w.Count("routing_ds_cases", 1)
-			}
-			if refused {
-				w.Count("routing_refused", 1)
-				if hit >= 0 {
-					w.Violation("C14/routing/handler-called-without-match", fmt.Sprintf("handler for %q ran although no registered pattern is a label-boundary suffix of %q", pats[hit].Pres(), q.Pres()), wit)
+			for k := 0; k < 40/(1+phase); k++ {
+				q := universe[r.IntN(len(universe))].Clone()
+				switch r.IntN(4) {
+				case 0:
+					q = append(model.Name{g.Label()}, q...)
+				case 1:
+					q, _ = flipCase(g, q)
+				case 2:
+					q = append(model.Name{g.Label(), g.Label()}, q...)
+				}
+				if !q.Valid() {
 					continue
 				}
-				m := rw.msg
-				if m == nil {
-					w.Violation("C14/routing/no-refused-reply", "nothing matched and no reply was written", wit)
+				qtype := []uint16{dns.TypeA, dns.TypeDS, dns.TypeNS, dns.TypeDS, uint16(g.Uint(16))}[r.IntN(5)]
+				req := new(dns.Msg)
+				req.Id = uint16(r.IntN(65536))
+				req.Opcode = []int{0, 0, 0, 4, 2}[r.IntN(5)]
+				req.RecursionDesired = r.IntN(2) == 0
+				req.CheckingDisabled = r.IntN(2) == 0
+				req.AuthenticatedData = r.IntN(2) == 0
+				req.Question = []dns.Question{{Name: q.Pres(), Qtype: qtype, Qclass: 1}}
+				if r.IntN(6) == 0 {
+					req.Question = append(req.Question, dns.Question{Name: "second.example.", Qtype: 1, Qclass: 1})
+				}
+				hit = -1
+				rw := &muxRW{}
+				w.Eval(1)
+				wit := map[string]any{"patterns": presAll(pats), "qname": q.Pres(), "qtype": qtype}
+				if w.Guard("ServeMux.ServeDNS", wit, func() { mux.ServeDNS(rw, req) }) {
 					continue
 				}
-				bad := ""
-				switch {
-				case m.Rcode != dns.RcodeRefused:
-					bad = fmt.Sprintf("rcode %d", m.Rcode)
-				case m.Id != req.Id:
-					bad = "id differs"
-				case !m.Response:
-					bad = "QR not set"
-				case m.Opcode != req.Opcode:
-					bad = "opcode not echoed"
-				case req.Opcode == dns.OpcodeQuery && (m.RecursionDesired != req.RecursionDesired || m.CheckingDisabled != req.CheckingDisabled):
-					bad = "RD/CD of a query not echoed"
-				case len(m.Question) != 1 || m.Question[0] != req.Question[0]:
-					bad = "first question not echoed"
-				case len(m.Answer)+len(m.Ns)+len(m.Extra) != 0:
-					bad = "records in the reply"
-				}
-				if bad != "" {
-					w.Violation("C14/routing/refused-reply/"+strings.ReplaceAll(bad, " ", "-"), "REFUSED reply: "+bad, wit)
-				}
-				continue
-			}
-			okHit := false
-			for _, a := range allowed {
-				if a == hit {
-					okHit = true
-				}
-			}
-			if !okHit {
-				got := "REFUSED/none"
-				if hit >= 0 {
-					got = pats[hit].Pres()
-				}
-				var al []string
-				for _, a := range allowed {
-					al = append(al, pats[a].Pres())
-				}
-				kind := "longest-suffix"
+				w.NontrivialStr(q.Pres(), fmt.Sprint(qtype), strings.Join(presAll(pats), "|"))
+				allowed, refused := c14Route(pats, q, qtype)
+				w.Count("routing_cases", 1)
 				if qtype == dns.TypeDS {
-					kind = "ds-parent"
+					w.Count("routing_ds_cases", 1)
 				}
-				w.Violation("C14/routing/"+kind, fmt.Sprintf("query %q type %d went to %s, expected one of %q", q.Pres(), qtype, got, al), wit)
+				if refused {
+					w.Count("routing_refused", 1)
+					if hit >= 0 {
+						w.Violation("C14/routing/handler-called-without-match", fmt.Sprintf("handler for %q ran although no registered pattern is a label-boundary suffix of %q (phase %d: patterns may have been removed)", allPats[hit].Pres(), q.Pres(), phase), wit)
+						continue
+					}
+					m := rw.msg
+					if m == nil {
+						w.Violation("C14/routing/no-refused-reply", "nothing matched and no reply was written", wit)
+						continue
+					}
+					bad := ""
+					switch {
+					case m.Rcode != dns.RcodeRefused:
+						bad = fmt.Sprintf("rcode %d", m.Rcode)
+					case m.Id != req.Id:
+						bad = "id differs"
+					case !m.Response:
+						bad = "QR not set"
+					case m.Opcode != req.Opcode:
+						bad = "opcode not echoed"
+					case req.Opcode == dns.OpcodeQuery && (m.RecursionDesired != req.RecursionDesired || m.CheckingDisabled != req.CheckingDisabled):
+						bad = "RD/CD of a query not echoed"
+					case len(m.Question) != 1 || m.Question[0] != req.Question[0]:
+						bad = "first question not echoed"
+					case len(m.Answer)+len(m.Ns)+len(m.Extra) != 0:
+						bad = "records in the reply"
+					}
+					if bad != "" {
+						w.Violation("C14/routing/refused-reply/"+strings.ReplaceAll(bad, " ", "-"), "REFUSED reply: "+bad, wit)
+					}
+					continue
+				}
+				okHit := false
+				for _, a := range allowed {
+					if patIDs[a] == hit {
+						okHit = true
+					}
+				}
+				if !okHit {
+					got := "REFUSED/none"
+					if hit >= 0 {
+						got = allPats[hit].Pres()
+					}
+					var al []string
+					for _, a := range allowed {
+						al = append(al, pats[a].Pres())
+					}
+					kind := "longest-suffix"
+					if qtype == dns.TypeDS {
+						kind = "ds-parent"
+					}
+					w.Violation("C14/routing/"+kind, fmt.Sprintf("query %q type %d went to %s, expected one of %q", q.Pres(), qtype, got, al), wit)
+				}
 			}
 		}
 	}
@@ -802,6 +840,6 @@ func init() {
 			"oracle = reference accept policy + exactly-one-of {handler once, reject reply, ignore, invalid callback(+FORMERR)} + reply shape; routing: random pattern sets over related names (escaped dots, case variants, relative spellings, root) x query names/types against a wire-label longest-suffix reference (DS: any registered strict ancestor); " +
 			"concurrent Handle/HandleRemove/ServeDNS histories (4 threads x 8 ops) checked for linearizability with porcupine; race detector on; non-trivial = distinct packet/transport, routing case or history",
 		Assumptions: []string{"for DS queries the statement does not say which of several registered ancestors is meant: any registered strict ancestor is accepted"},
-		MinObserved: []string{"accepted_and_handled", "accepted_but_undecodable", "short_packets", "wellformed_queries", "routing_ds_cases", "routing_refused", "histories", "segmented_stream_deliveries", "pipelines"},
+		MinObserved: []string{"accepted_and_handled", "accepted_but_undecodable", "short_packets", "wellformed_queries", "routing_ds_cases", "routing_refused", "histories", "segmented_stream_deliveries", "pipelines", "routing_reconfigurations"},
 	})
 }
